@@ -18,6 +18,7 @@
 #include <cstdio>
 #include <cstdlib>
 #include <cstring>
+#include <exception>
 #include <functional>
 #include <map>
 #include <mutex>
@@ -265,6 +266,23 @@ inline void death_note() {
     (void)r;
 }
 
+//! what the harness is calling right now (static string), for terminate/abort keys
+inline const char*& context() { static const char* c = ""; return c; }
+inline const char*& property_id() { static const char* c = "C??"; return c; }
+
+inline void terminate_handler() {
+    char buf[256];
+    int n = snprintf(buf, sizeof(buf), "\nVERIF-KEY %s:terminate:%s\n", property_id(), context());
+    ssize_t r = write(2, buf, n);
+    (void)r;
+    death_note();
+    if (st().mtx.try_lock()) {
+        st().mtx.unlock();
+        dump_out(true);
+    }
+    _exit(98);
+}
+
 inline void death_callback() {
     death_note();
     // best effort: keep the counters of the cases that ran before
@@ -291,6 +309,7 @@ inline void install_death_handlers() {
 #ifdef VERIF_HAVE_SANITIZER
     __sanitizer_set_death_callback(death_callback);
 #endif
+    std::set_terminate(terminate_handler);
     // abort() (assert) is not routed through the sanitizer death callback
     signal(SIGABRT, signal_handler);
 #if !defined(__SANITIZE_ADDRESS__) && !defined(__SANITIZE_THREAD__)
